@@ -24,6 +24,11 @@ def gen_control_case(rng, tier, fresh):
     else:
         bnet = common.g_mixed(rng, nmax=nmax, p_core=0.2)
     prefix = [] if fresh else gen_ops(rng, rng.randint(0, 4), allow_skip=True, allow_unmodelled=True)
+    if not fresh and rng.random() < 0.2:
+        # an early-stopped diagram completed with skip nodes: the successions run through skip edges
+        prefix = [rng.choice([["bfs", 0, rng.choice([0, 1]), None], ["one", 0], ["dfs", 0, 1, None], ["bfs", 0, None, rng.randint(2, 5)],
+                              ["min", 0, rng.randint(1, 4), False]]),
+                  ["skiprem"] if rng.random() < 0.7 else ["skipmin", rng.randrange(64)]]
     return {"bnet": bnet, "ops": prefix, "max_motifs": rng.choice([100000] * 5 + [2, 3]),
             "target": [[rng.randrange(64), rng.randint(0, 1)] for _ in range(rng.randint(1, 3))],
             "target_mode": rng.choice(["trap", "trap", "space"]), "target_pick": rng.randrange(1 << 20),
